@@ -166,56 +166,60 @@ Proof.
     + apply IH. intro Hin. apply Hx. right. exact Hin.
 Qed.
 
-(* the loop of applyAddPublicKeys / applyAddServiceEndpoints, under its natural invariant *)
-Lemma add_go_refines : forall adds cur ex_ids,
-  NoDup (map jid cur) -> NoDup (map jid adds) ->
-  (forall e, In e adds -> (In (jid e) ex_ids <-> In (jid e) (map jid cur))) ->
-  abs_l (add_entries_go ex_ids cur adds) = omap_add_all adds (abs_l cur)
-  /\ NoDup (map jid (add_entries_go ex_ids cur adds)).
+(* the loop of applyAddPublicKeys / applyAddServiceEndpoints: the threaded id set is exactly the ids of [cur] *)
+Lemma add_go_refines : forall adds cur,
+  NoDup (map jid cur) ->
+  abs_l (add_entries_go (map jid cur) cur adds) = omap_add_all adds (abs_l cur)
+  /\ NoDup (map jid (add_entries_go (map jid cur) cur adds)).
 Proof.
-  induction adds as [|e r IH]; intros cur ex_ids Hcur Hadds Hinv; cbn [add_entries_go].
+  induction adds as [|e r IH]; intros cur Hcur; cbn [add_entries_go].
   - split; [reflexivity|exact Hcur].
-  - cbn [map] in Hadds. inversion Hadds as [|? ? He Hr]; subst.
-    unfold omap_add_all. cbn [fold_left]. fold (omap_add_all r (omap_add (jid e) e (abs_l cur))).
-    destruct (bmem (jid e) ex_ids) eqn:Em.
-    + apply bmem_In in Em. assert (Hin : In (jid e) (map jid cur)) by (apply Hinv; [left; reflexivity|exact Em]).
-      rewrite <- (update_refines cur e Hcur Hin).
-      apply IH.
-      * rewrite map_jid_update. exact Hcur.
-      * exact Hr.
-      * intros e' He'. rewrite map_jid_update. apply Hinv. right. exact He'.
+  - unfold omap_add_all. cbn [fold_left]. fold (omap_add_all r (omap_add (jid e) e (abs_l cur))).
+    destruct (bmem (jid e) (map jid cur)) eqn:Em.
+    + apply bmem_In in Em.
+      rewrite <- (update_refines cur e Hcur Em).
+      pose proof (IH (update_entry cur e)) as H. rewrite map_jid_update in H. apply H. exact Hcur.
     + apply bmem_not_In in Em.
-      assert (Hnin : ~ In (jid e) (map jid cur)) by (intro H; apply Em; apply Hinv; [left; reflexivity|exact H]).
-      rewrite (omap_add_absent json (jid e) e (abs_l cur)) by (rewrite map_fst_abs_l; exact Hnin).
+      rewrite (omap_add_absent json (jid e) e (abs_l cur)) by (rewrite map_fst_abs_l; exact Em).
       change [(jid e, e)] with (abs_l [e]). rewrite <- abs_l_app.
-      apply IH.
-      * rewrite map_app. cbn [map]. apply NoDup_snoc; assumption.
-      * exact Hr.
-      * intros e' He'. rewrite map_app. cbn [map]. rewrite in_app_iff. cbn [In].
-        assert (Hne : jid e <> jid e').
-        { intro E. apply He. rewrite E. apply in_map. exact He'. }
-        specialize (Hinv e' (or_intror He')). tauto.
+      change [jid e] with (map jid [e]). rewrite <- map_app.
+      apply IH. rewrite map_app. cbn [map]. apply NoDup_snoc; assumption.
 Qed.
 
 Lemma add_entries_refines : forall ex adds,
-  NoDup (map jid ex) -> NoDup (map jid adds) ->
+  NoDup (map jid ex) ->
   abs_l (add_entries ex adds) = omap_add_all adds (abs_l ex) /\ NoDup (map jid (add_entries ex adds)).
+Proof. intros ex adds Hex. unfold add_entries. apply add_go_refines. exact Hex. Qed.
+
+(* entries whose ids are fresh and pairwise distinct are simply appended *)
+Lemma add_go_fresh : forall adds cur,
+  NoDup (map jid adds) -> (forall e, In e adds -> ~ In (jid e) (map jid cur)) ->
+  add_entries_go (map jid cur) cur adds = cur ++ adds.
 Proof.
-  intros ex adds Hex Hadds. unfold add_entries. apply add_go_refines; [exact Hex|exact Hadds|].
-  intros e _. tauto.
+  induction adds as [|e r IH]; intros cur Hnd Hfresh; cbn [add_entries_go].
+  - rewrite app_nil_r. reflexivity.
+  - cbn [map] in Hnd. inversion Hnd as [|? ? He Hr]; subst.
+    assert (Em : bmem (jid e) (map jid cur) = false) by (apply bmem_not_In; apply Hfresh; left; reflexivity).
+    rewrite Em. change [jid e] with (map jid [e]). rewrite <- map_app. rewrite IH.
+    + rewrite <- app_assoc. reflexivity.
+    + exact Hr.
+    + intros e' He'. rewrite map_app. cbn [map]. rewrite in_app_iff. cbn [In]. intros [H|[H|[]]].
+      * exact (Hfresh e' (or_intror He') H).
+      * apply He. rewrite H. apply in_map. exact He'.
 Qed.
 
-Lemma add_go_objs : forall adds cur ex_ids,
+Lemma add_go_objs : forall adds cur ids,
   Forall (fun e => is_obj e = true) cur -> Forall (fun e => is_obj e = true) adds ->
-  Forall (fun e => is_obj e = true) (add_entries_go ex_ids cur adds).
+  Forall (fun e => is_obj e = true) (add_entries_go ids cur adds).
 Proof.
-  induction adds as [|e r IH]; intros cur ex_ids Hc Ha; cbn [add_entries_go]; [exact Hc|].
-  inversion Ha as [|? ? He Hr]; subst. apply IH; [|exact Hr].
-  destruct (bmem (jid e) ex_ids).
-  - unfold update_entry. apply Forall_forall. intros x Hx. apply in_map_iff in Hx. destruct Hx as [y [Hy Hin]].
+  induction adds as [|e r IH]; intros cur ids Hc Ha; cbn [add_entries_go]; [exact Hc|].
+  inversion Ha as [|? ? He Hr]; subst.
+  destruct (bmem (jid e) ids).
+  - apply IH; [|exact Hr].
+    unfold update_entry. apply Forall_forall. intros x Hx. apply in_map_iff in Hx. destruct Hx as [y [Hy Hin]].
     destruct (bytes_eqb (jid y) (jid e)); subst x; [exact He|].
     rewrite Forall_forall in Hc. apply Hc. exact Hin.
-  - apply Forall_app. split; [exact Hc|]. constructor; [exact He|constructor].
+  - apply IH; [|exact Hr]. apply Forall_app. split; [exact Hc|]. constructor; [exact He|constructor].
 Qed.
 
 Lemma remove_objs : forall ex ids,
@@ -272,35 +276,40 @@ Proof.
     apply bytes_eqb_neq in E. exfalso. apply E. symmetry. exact H.
 Qed.
 
-Lemma add_uris_go_refines : forall adds cur ex,
-  NoDup adds -> (forall u, In u adds -> (In u ex <-> In u cur)) ->
-  abs_u (add_uris_go ex cur adds) = omap_add_uris adds (abs_u cur)
-  /\ (NoDup cur -> NoDup (add_uris_go ex cur adds)).
+Lemma add_uris_go_refines : forall adds cur,
+  abs_u (add_uris_go cur cur adds) = omap_add_uris adds (abs_u cur)
+  /\ (NoDup cur -> NoDup (add_uris_go cur cur adds)).
 Proof.
-  induction adds as [|u r IH]; intros cur ex Hadds Hinv; cbn [add_uris_go].
+  induction adds as [|u r IH]; intros cur; cbn [add_uris_go].
   - split; [reflexivity|tauto].
-  - inversion Hadds as [|? ? Hu Hr]; subst.
-    unfold omap_add_uris. cbn [fold_left]. fold (omap_add_uris r (omap_add u tt (abs_u cur))).
-    destruct (bmem u ex) eqn:Em.
-    + apply bmem_In in Em. assert (Hin : In u cur) by (apply Hinv; [left; reflexivity|exact Em]).
-      rewrite omap_add_unit_present by (rewrite map_fst_abs_u; exact Hin).
-      apply IH; [exact Hr|]. intros u' Hu'. apply Hinv. right. exact Hu'.
+  - unfold omap_add_uris. cbn [fold_left]. fold (omap_add_uris r (omap_add u tt (abs_u cur))).
+    destruct (bmem u cur) eqn:Em.
+    + apply bmem_In in Em.
+      rewrite omap_add_unit_present by (rewrite map_fst_abs_u; exact Em). apply IH.
     + apply bmem_not_In in Em.
-      assert (Hnin : ~ In u cur) by (intro H; apply Em; apply Hinv; [left; reflexivity|exact H]).
-      rewrite omap_add_absent by (rewrite map_fst_abs_u; exact Hnin).
+      rewrite omap_add_absent by (rewrite map_fst_abs_u; exact Em).
       change [(u, tt)] with (abs_u [u]). unfold abs_u at 2 3. rewrite <- map_app. fold (abs_u (cur ++ [u])).
-      destruct (IH (cur ++ [u]) ex Hr) as [IH1 IH2].
-      * intros u' Hu'. rewrite in_app_iff. cbn [In].
-        assert (Hne : u <> u') by (intro E; subst; contradiction).
-        specialize (Hinv u' (or_intror Hu')). tauto.
-      * split; [exact IH1|]. intro Hcur. apply IH2. apply NoDup_snoc; assumption.
+      destruct (IH (cur ++ [u])) as [IH1 IH2].
+      split; [exact IH1|]. intro Hcur. apply IH2. apply NoDup_snoc; assumption.
 Qed.
 
 Lemma add_uris_refines : forall ex adds,
-  NoDup adds ->
   abs_u (add_uris ex adds) = omap_add_uris adds (abs_u ex) /\ (NoDup ex -> NoDup (add_uris ex adds)).
+Proof. intros ex adds. unfold add_uris. apply add_uris_go_refines. Qed.
+
+Lemma add_uris_go_fresh : forall adds cur,
+  NoDup adds -> (forall u, In u adds -> ~ In u cur) -> add_uris_go cur cur adds = cur ++ adds.
 Proof.
-  intros ex adds H. unfold add_uris. apply add_uris_go_refines; [exact H|]. intros u _. tauto.
+  induction adds as [|u r IH]; intros cur Hnd Hfresh; cbn [add_uris_go].
+  - rewrite app_nil_r. reflexivity.
+  - inversion Hnd as [|? ? Hu Hr]; subst.
+    assert (Em : bmem u cur = false) by (apply bmem_not_In; apply Hfresh; left; reflexivity).
+    rewrite Em. rewrite IH.
+    + rewrite <- app_assoc. reflexivity.
+    + exact Hr.
+    + intros u' Hu'. rewrite in_app_iff. cbn [In]. intros [H|[H|[]]].
+      * exact (Hfresh u' (or_intror Hu') H).
+      * subst u'. contradiction.
 Qed.
 
 Lemma remove_uris_cons : forall ex i r,
@@ -597,10 +606,6 @@ Lemma ne_aka_svc : d_alsoKnownAs <> d_service. Proof. intro H. vm_compute in H. 
 Definition sections_nodup (d : json) : Prop :=
   NoDup (map jid (sec d_publicKey d)) /\ NoDup (map jid (sec d_service d)) /\ NoDup (uris d).
 
-(* what the patch validators enforce on one patch: ids (resp. URIs) inside the patch are pairwise distinct *)
-Definition patch_distinct (v : json) : Prop :=
-  NoDup (map jid (parse_entries v)) /\ NoDup (string_array v).
-
 Lemma abs_doc_eq : forall d,
   abs_doc d = {| da_keys := abs_l (sec d_publicKey d); da_services := abs_l (sec d_service d); da_aka := abs_u (uris d) |}.
 Proof. reflexivity. Qed.
@@ -614,15 +619,18 @@ Proof. intros d d' H. unfold uris. rewrite H. reflexivity. Qed.
 Section Refinement.
   Variable jp : json -> json -> option json.
 
-  (* For a document (an object) whose sections have pairwise distinct ids and a patch whose own ids are pairwise
-     distinct, the abstraction of the patched document is the ordered-map operation applied to the abstraction of
-     the document: add-* = omap_add of the patch entries in order, remove-* = omap_remove of the listed ids.
-     The other two sections are unchanged.  (remove-* needs no distinctness hypothesis.) *)
+  (* For a document (an object), the abstraction of the patched document is the ordered-map operation applied to
+     the abstraction of the document: add-* = omap_add of the patch entries in order (an id repeated inside the patch
+     overwrites, in place, the entry added earlier), remove-* = omap_remove of the listed ids; the other two
+     sections are unchanged.
+     Remaining hypotheses: add-public-keys / add-services need the ids of the TOUCHED document section to be
+     pairwise distinct (updateKey overwrites every entry with the id, the ordered map has one); nothing is assumed
+     about the patch.  add-also-known-as and the three remove-* actions need no hypothesis at all. *)
   Theorem refines_ordered_map : forall m p v,
     patch_value p = Some v ->
     let a := abs_doc (JObj m) in
     (patch_action p = Some a_add_pk ->
-       NoDup (map jid (sec d_publicKey (JObj m))) -> NoDup (map jid (parse_entries v)) ->
+       NoDup (map jid (sec d_publicKey (JObj m))) ->
        exists d', apply_patch jp (JObj m) p = Some d' /\
          abs_doc d' = {| da_keys := omap_add_all (parse_entries v) (da_keys a);
                          da_services := da_services a; da_aka := da_aka a |})
@@ -631,7 +639,7 @@ Section Refinement.
          abs_doc d' = {| da_keys := omap_remove_all (string_array v) (da_keys a);
                          da_services := da_services a; da_aka := da_aka a |})
     /\ (patch_action p = Some a_add_svc ->
-       NoDup (map jid (sec d_service (JObj m))) -> NoDup (map jid (parse_entries v)) ->
+       NoDup (map jid (sec d_service (JObj m))) ->
        exists d', apply_patch jp (JObj m) p = Some d' /\
          abs_doc d' = {| da_keys := da_keys a;
                          da_services := omap_add_all (parse_entries v) (da_services a); da_aka := da_aka a |})
@@ -640,7 +648,6 @@ Section Refinement.
          abs_doc d' = {| da_keys := da_keys a;
                          da_services := omap_remove_all (string_array v) (da_services a); da_aka := da_aka a |})
     /\ (patch_action p = Some a_add_aka ->
-       NoDup (string_array v) ->
        exists d', apply_patch jp (JObj m) p = Some d' /\
          abs_doc d' = {| da_keys := da_keys a; da_services := da_services a;
                          da_aka := omap_add_uris (string_array v) (da_aka a) |})
@@ -651,46 +658,46 @@ Section Refinement.
   Proof.
     intros m p v Hv a. subst a. rewrite (abs_doc_eq (JObj m)). cbn [da_keys da_services da_aka].
     split; [|split; [|split; [|split; [|split]]]].
-    - intros Ha Hex Hadds. rewrite (dispatch_add_pk jp _ _ _ Ha Hv).
+    - intros Ha Hex. rewrite (dispatch_add_pk jp _ _ _ Ha Hv).
       destruct (add_section d_publicKey m v) as [d' [H1 [H2 H3]]]. exists d'. split; [exact H1|].
       rewrite abs_doc_eq. rewrite (sec_frame _ _ _ (H3 _ ne_pk_svc)), (uris_frame _ _ (H3 _ ne_pk_aka)).
-      rewrite H2. rewrite (proj1 (add_entries_refines _ _ Hex Hadds)). reflexivity.
+      rewrite H2. rewrite (proj1 (add_entries_refines _ (parse_entries v) Hex)). reflexivity.
     - intros Ha. rewrite (dispatch_rem_pk jp _ _ _ Ha Hv).
       destruct (remove_section d_publicKey m v) as [d' [H1 [H2 H3]]]. exists d'. split; [exact H1|].
       rewrite abs_doc_eq. rewrite (sec_frame _ _ _ (H3 _ ne_pk_svc)), (uris_frame _ _ (H3 _ ne_pk_aka)).
       rewrite H2. rewrite remove_entries_refines. reflexivity.
-    - intros Ha Hex Hadds. rewrite (dispatch_add_svc jp _ _ _ Ha Hv).
+    - intros Ha Hex. rewrite (dispatch_add_svc jp _ _ _ Ha Hv).
       destruct (add_section d_service m v) as [d' [H1 [H2 H3]]]. exists d'. split; [exact H1|].
       rewrite abs_doc_eq. rewrite (sec_frame _ _ _ (H3 _ ne_svc_pk)), (uris_frame _ _ (H3 _ ne_svc_aka)).
-      rewrite H2. rewrite (proj1 (add_entries_refines _ _ Hex Hadds)). reflexivity.
+      rewrite H2. rewrite (proj1 (add_entries_refines _ (parse_entries v) Hex)). reflexivity.
     - intros Ha. rewrite (dispatch_rem_svc jp _ _ _ Ha Hv).
       destruct (remove_section d_service m v) as [d' [H1 [H2 H3]]]. exists d'. split; [exact H1|].
       rewrite abs_doc_eq. rewrite (sec_frame _ _ _ (H3 _ ne_svc_pk)), (uris_frame _ _ (H3 _ ne_svc_aka)).
       rewrite H2. rewrite remove_entries_refines. reflexivity.
-    - intros Ha Hadds. rewrite (dispatch_add_aka jp _ _ _ Ha Hv).
+    - intros Ha. rewrite (dispatch_add_aka jp _ _ _ Ha Hv).
       destruct (add_aka_section m v) as [d' [H1 [H2 H3]]]. exists d'. split; [exact H1|].
       rewrite abs_doc_eq. rewrite (sec_frame _ _ _ (H3 _ ne_aka_pk)), (sec_frame _ _ _ (H3 _ ne_aka_svc)).
-      rewrite H2. rewrite (proj1 (add_uris_refines (uris (JObj m)) _ Hadds)). reflexivity.
+      rewrite H2. rewrite (proj1 (add_uris_refines (uris (JObj m)) (string_array v))). reflexivity.
     - intros Ha. rewrite (dispatch_rem_aka jp _ _ _ Ha Hv).
       destruct (remove_aka_section m v) as [d' [H1 [H2 H3]]]. exists d'. split; [exact H1|].
       rewrite abs_doc_eq. rewrite (sec_frame _ _ _ (H3 _ ne_aka_pk)), (sec_frame _ _ _ (H3 _ ne_aka_svc)).
       rewrite H2. rewrite remove_uris_refines. reflexivity.
   Qed.
 
-  (* 3. *)
+  (* 3. no hypothesis on the patch: whatever a set action carries, ids stay pairwise distinct *)
   Theorem ids_unique_preserved : forall m p v d',
     patch_value p = Some v ->
     (patch_action p = Some a_add_pk \/ patch_action p = Some a_rem_pk \/ patch_action p = Some a_add_svc
      \/ patch_action p = Some a_rem_svc \/ patch_action p = Some a_add_aka \/ patch_action p = Some a_rem_aka) ->
-    sections_nodup (JObj m) -> patch_distinct v ->
+    sections_nodup (JObj m) ->
     apply_patch jp (JObj m) p = Some d' -> sections_nodup d'.
   Proof.
-    intros m p v d' Hv Hact [Hk [Hs Hu]] [Hpe Hpu] Happ. unfold sections_nodup.
+    intros m p v d' Hv Hact [Hk [Hs Hu]] Happ. unfold sections_nodup.
     destruct Hact as [Ha|[Ha|[Ha|[Ha|[Ha|Ha]]]]].
     - rewrite (dispatch_add_pk jp _ _ _ Ha Hv) in Happ.
       destruct (add_section d_publicKey m v) as [d2 [H1 [H2 H3]]]. rewrite H1 in Happ. inversion Happ; subst d2.
       rewrite (sec_frame _ _ _ (H3 _ ne_pk_svc)), (uris_frame _ _ (H3 _ ne_pk_aka)), H2.
-      split; [|split; assumption]. apply (add_entries_refines _ _ Hk Hpe).
+      split; [|split; assumption]. apply (add_entries_refines _ (parse_entries v) Hk).
     - rewrite (dispatch_rem_pk jp _ _ _ Ha Hv) in Happ.
       destruct (remove_section d_publicKey m v) as [d2 [H1 [H2 H3]]]. rewrite H1 in Happ. inversion Happ; subst d2.
       rewrite (sec_frame _ _ _ (H3 _ ne_pk_svc)), (uris_frame _ _ (H3 _ ne_pk_aka)), H2.
@@ -698,7 +705,7 @@ Section Refinement.
     - rewrite (dispatch_add_svc jp _ _ _ Ha Hv) in Happ.
       destruct (add_section d_service m v) as [d2 [H1 [H2 H3]]]. rewrite H1 in Happ. inversion Happ; subst d2.
       rewrite (sec_frame _ _ _ (H3 _ ne_svc_pk)), (uris_frame _ _ (H3 _ ne_svc_aka)), H2.
-      split; [assumption|split; [|assumption]]. apply (add_entries_refines _ _ Hs Hpe).
+      split; [assumption|split; [|assumption]]. apply (add_entries_refines _ (parse_entries v) Hs).
     - rewrite (dispatch_rem_svc jp _ _ _ Ha Hv) in Happ.
       destruct (remove_section d_service m v) as [d2 [H1 [H2 H3]]]. rewrite H1 in Happ. inversion Happ; subst d2.
       rewrite (sec_frame _ _ _ (H3 _ ne_svc_pk)), (uris_frame _ _ (H3 _ ne_svc_aka)), H2.
@@ -706,7 +713,7 @@ Section Refinement.
     - rewrite (dispatch_add_aka jp _ _ _ Ha Hv) in Happ.
       destruct (add_aka_section m v) as [d2 [H1 [H2 H3]]]. rewrite H1 in Happ. inversion Happ; subst d2.
       rewrite (sec_frame _ _ _ (H3 _ ne_aka_pk)), (sec_frame _ _ _ (H3 _ ne_aka_svc)), H2.
-      split; [assumption|split; [assumption|]]. apply (add_uris_refines (uris (JObj m)) _ Hpu). exact Hu.
+      split; [assumption|split; [assumption|]]. apply (add_uris_refines (uris (JObj m)) (string_array v)). exact Hu.
     - rewrite (dispatch_rem_aka jp _ _ _ Ha Hv) in Happ.
       destruct (remove_aka_section m v) as [d2 [H1 [H2 H3]]]. rewrite H1 in Happ. inversion Happ; subst d2.
       rewrite (sec_frame _ _ _ (H3 _ ne_aka_pk)), (sec_frame _ _ _ (H3 _ ne_aka_svc)), H2.
@@ -715,49 +722,60 @@ Section Refinement.
   Qed.
 End Refinement.
 
-(* Without the hypothesis "ids inside one patch are pairwise distinct" the refinement FAILS: the membership map is
-   computed once, from the document before the patch, so a new id carried twice by one patch is appended twice.
-   Witness: the empty document and add-public-keys [{"id":"k1","type":"a"},{"id":"k1","type":"b"}].
-   Model and real code: publicKey = [{"id":"k1","type":"a"},{"id":"k1","type":"b"}]; ordered map: [k1 -> type b].
-   The invariant of theorem 3 is lost as well. *)
-Definition dup_patch : json :=
-  mk_patch a_add_pk pk_publicKeys (JArr [ex_key "k1" "a"; ex_key "k1" "b"]).
-
-Theorem refines_ordered_map_refuted :
-  exists d p v d',
-    patch_action p = Some a_add_pk /\ patch_value p = Some v /\
-    NoDup (map jid (sec d_publicKey d)) /\
-    apply_patch jp_none d p = Some d' /\
-    da_keys (abs_doc d') <> omap_add_all (parse_entries v) (da_keys (abs_doc d)) /\
-    ~ NoDup (map jid (sec d_publicKey d')).
-Proof.
-  exists (JObj []), dup_patch, (JArr [ex_key "k1" "a"; ex_key "k1" "b"]).
-  exists (JObj [(d_publicKey, JArr [ex_key "k1" "a"; ex_key "k1" "b"])]).
-  split; [reflexivity|]. split; [reflexivity|]. split; [constructor|]. split; [vm_compute; reflexivity|]. split.
-  - vm_compute. intro H. discriminate H.
-  - vm_compute. intro H. inversion H as [|? ? Hn _]. apply Hn. left. reflexivity.
-Qed.
-
-(* the same for URIs and services *)
-Example dup_uris_refuted :
-  apply_patch jp_none (JObj []) (mk_patch a_add_aka pk_uris (JArr [JStr (bs "u"); JStr (bs "u")]))
-  = Some (JObj [(d_alsoKnownAs, JArr [JStr (bs "u"); JStr (bs "u")])]).
+(* Since commit 94b5572 an id carried twice by one patch yields ONE entry: the later one, at the position where
+   the first was appended (before the fix both were appended; see the history of this file / finding D1). *)
+Example dup_in_patch_keys :
+  apply_patch jp_none (JObj [])
+    (mk_patch a_add_pk pk_publicKeys (JArr [ex_key "k1" "a"; ex_key "k2" "x"; ex_key "k1" "b"]))
+  = Some (JObj [(d_publicKey, JArr [ex_key "k1" "b"; ex_key "k2" "x"])]).
 Proof. vm_compute. reflexivity. Qed.
 
-(* the hypotheses of refines_ordered_map / ids_unique_preserved hold for a non-trivial input *)
+Example dup_in_patch_services :
+  apply_patch jp_none (JObj [(d_service, JArr [ex_key "s0" "old"])])
+    (mk_patch a_add_svc pk_services (JArr [ex_key "s1" "a"; ex_key "s0" "new"; ex_key "s1" "b"]))
+  = Some (JObj [(d_service, JArr [ex_key "s0" "new"; ex_key "s1" "b"])]).
+Proof. vm_compute. reflexivity. Qed.
+
+Example dup_in_patch_uris :
+  apply_patch jp_none (JObj []) (mk_patch a_add_aka pk_uris (JArr [JStr (bs "u"); JStr (bs "w"); JStr (bs "u")]))
+  = Some (JObj [(d_alsoKnownAs, JArr [JStr (bs "u"); JStr (bs "w")])]).
+Proof. vm_compute. reflexivity. Qed.
+
+(* the former counterexample now satisfies the refinement and keeps the ids distinct *)
+Example dup_in_patch_refines :
+  let v := JArr [ex_key "k1" "a"; ex_key "k1" "b"] in
+  match apply_patch jp_none (JObj []) (mk_patch a_add_pk pk_publicKeys v) with
+  | Some d' => da_keys (abs_doc d') = omap_add_all (parse_entries v) (da_keys (abs_doc (JObj [])))
+               /\ da_keys (abs_doc d') = [(bs "k1", ex_key "k1" "b")]
+  | None => False
+  end.
+Proof. vm_compute. split; reflexivity. Qed.
+
+(* the hypothesis that remains (distinct ids in the touched section) holds for a non-trivial input, and is needed:
+   on a section that already holds an id twice, updateKey overwrites both entries *)
 Example refinement_hyps_inhabited :
   let d := JObj [(d_publicKey, JArr [ex_key "k1" "a"; ex_key "k2" "b"]); (d_alsoKnownAs, JArr [JStr (bs "u")])] in
-  let v := JArr [ex_key "k2" "c"; ex_key "k3" "d"] in
-  sections_nodup d /\ patch_distinct v /\
+  let v := JArr [ex_key "k2" "c"; ex_key "k3" "d"; ex_key "k3" "e"] in
+  sections_nodup d /\
   apply_patch jp_none d (mk_patch a_add_pk pk_publicKeys v)
-  = Some (JObj [(d_publicKey, JArr [ex_key "k1" "a"; ex_key "k2" "c"; ex_key "k3" "d"]);
+  = Some (JObj [(d_publicKey, JArr [ex_key "k1" "a"; ex_key "k2" "c"; ex_key "k3" "e"]);
                 (d_alsoKnownAs, JArr [JStr (bs "u")])]).
 Proof.
-  cbv zeta. split; [|split].
+  cbv zeta. split.
   - unfold sections_nodup. vm_compute. repeat split; repeat constructor; cbn [In]; intuition discriminate.
-  - unfold patch_distinct. vm_compute. split; repeat constructor; cbn [In]; intuition discriminate.
   - vm_compute. reflexivity.
 Qed.
+
+Example section_nodup_needed :
+  let d := JObj [(d_publicKey, JArr [ex_key "k1" "a"; ex_key "k1" "b"])] in
+  let v := JArr [ex_key "k1" "c"] in
+  match apply_patch jp_none d (mk_patch a_add_pk pk_publicKeys v) with
+  | Some d' => da_keys (abs_doc d') = [(bs "k1", ex_key "k1" "c"); (bs "k1", ex_key "k1" "c")]
+               /\ omap_add_all (parse_entries v) (da_keys (abs_doc d))
+                  = [(bs "k1", ex_key "k1" "c"); (bs "k1", ex_key "k1" "b")]
+  | None => False
+  end.
+Proof. vm_compute. split; reflexivity. Qed.
 
 (* ------------------------------------------------------------------------------------------------ *)
 (* 4. atomicity                                                                                      *)
@@ -817,16 +835,20 @@ End Atomic.
 Definition name_plain (k : bytes) : bool :=
   forallb (fun b => negb (Byte.eqb b "/"%byte) && negb (Byte.eqb b "~"%byte)) k.
 
+(* non-empty list of objects with pairwise distinct ids (a missing or non-string id counts as "") *)
 Definition entries_ok (v : json) : Prop :=
-  exists l, v = JArr l /\ l <> [] /\ Forall (fun e => is_obj e = true) l.
+  exists l, v = JArr l /\ l <> [] /\ Forall (fun e => is_obj e = true) l /\ NoDup (map jid l).
 
-Definition uris_ok (v : json) : Prop := exists us, v = JArr (map JStr us) /\ us <> [].
+(* non-empty list of pairwise distinct strings *)
+Definition uris_ok (v : json) : Prop := exists us, v = JArr (map JStr us) /\ us <> [] /\ NoDup us.
 
 Definition is_section (k : bytes) : bool :=
   if bytes_eqb k d_publicKey then true else if bytes_eqb k d_service then true
   else if bytes_eqb k d_alsoKnownAs then true else false.
 
-(* a well-formed member: the three sections are non-empty lists of objects / of strings; every other member name
+(* a well-formed member: the three sections are non-empty lists of objects / of strings WITHOUT REPEATED ids / URIs
+   (since commit 94b5572 a repeated id collapses to one entry, so such a document is not reproduced; before the fix
+   the repetition was reproduced and this condition was not needed); every other member name
    denotes itself in the JSON text of the generated patch ([key_plain]) and as a JSON-pointer token ([name_plain]) *)
 Definition wf_member (kv : bytes * json) : Prop :=
   if bytes_eqb (fst kv) d_publicKey then entries_ok (snd kv)
@@ -898,19 +920,14 @@ Proof.
   destruct (bytes_eqb k k'); [discriminate H|]. rewrite IH by exact H. reflexivity.
 Qed.
 
-Lemma add_go_nil : forall adds cur, add_entries_go [] cur adds = cur ++ adds.
+Lemma add_entries_nil : forall l, NoDup (map jid l) -> add_entries [] l = l.
 Proof.
-  induction adds as [|e r IH]; intro cur; cbn [add_entries_go bmem existsb].
-  - rewrite app_nil_r. reflexivity.
-  - rewrite IH. rewrite <- app_assoc. reflexivity.
+  intros l H. unfold add_entries. change (map jid []) with (map jid (@nil json)).
+  rewrite (add_go_fresh l [] H); [reflexivity|]. intros e _ [].
 Qed.
 
-Lemma add_uris_go_nil : forall adds cur, add_uris_go [] cur adds = cur ++ adds.
-Proof.
-  induction adds as [|e r IH]; intro cur; cbn [add_uris_go bmem existsb].
-  - rewrite app_nil_r. reflexivity.
-  - rewrite IH. rewrite <- app_assoc. reflexivity.
-Qed.
+Lemma add_uris_nil : forall l, NoDup l -> add_uris [] l = l.
+Proof. intros l H. unfold add_uris. rewrite (add_uris_go_fresh l [] H); [reflexivity|]. intros u _ []. Qed.
 
 Lemma uris_of_list_strs : forall us, uris_of_list (map JStr us) = Some us.
 Proof. induction us as [|u r IH]; cbn [map uris_of_list]; [reflexivity|]. rewrite IH. reflexivity. Qed.
@@ -945,7 +962,7 @@ Proof.
   - destruct (bytes_eqb k d_service) eqn:E2.
     + cbn [negb map]. rewrite (sec_patch_2 k v E1 E2). reflexivity.
     + destruct (bytes_eqb k d_alsoKnownAs) eqn:E3.
-      * destruct Hkv as [us [Hv Hne]]. subst v. rewrite (uris_of_ok us Hne).
+      * destruct Hkv as [us [Hv [Hne _]]]. subst v. rewrite (uris_of_ok us Hne).
         cbn [negb map]. rewrite (sec_patch_3 k _ E1 E2). reflexivity.
       * destruct Hkv as [Hp _]. rewrite Hp. cbn [negb map]. reflexivity.
 Qed.
@@ -978,22 +995,22 @@ Section RoundTrip.
     cbn [fst snd] in *.
     destruct (bytes_eqb k d_publicKey) eqn:E1; [|destruct (bytes_eqb k d_service) eqn:E2;
                                                    [|destruct (bytes_eqb k d_alsoKnownAs) eqn:E3; [|discriminate Hsec]]].
-    - apply bytes_eqb_eq in E1. subst k. destruct Hwf as [l [Hv [Hne Hobj]]]. subst v.
+    - apply bytes_eqb_eq in E1. subst k. destruct Hwf as [l [Hv [Hne [Hobj Hndl]]]]. subst v.
       rewrite (dispatch_add_pk jp (JObj acc) _ (JArr l) (pa_pk _) (pv_pk _)).
       unfold apply_add_entries, doc_get. cbn [members]. rewrite Hnone. cbn [parse_entries].
-      unfold add_entries. cbn [map]. rewrite add_go_nil. cbn [app]. rewrite (filter_all _ _ _ Hobj).
+      rewrite (filter_all _ _ _ Hobj). rewrite (add_entries_nil l Hndl).
       destruct l as [|e l']; [contradiction|]. cbn [arr_or_null doc_set res_opt].
       rewrite (jset_absent _ _ _ Hnone). reflexivity.
-    - apply bytes_eqb_eq in E2. subst k. destruct Hwf as [l [Hv [Hne Hobj]]]. subst v.
+    - apply bytes_eqb_eq in E2. subst k. destruct Hwf as [l [Hv [Hne [Hobj Hndl]]]]. subst v.
       rewrite (dispatch_add_svc jp (JObj acc) _ (JArr l) (pa_svc _) (pv_svc _)).
       unfold apply_add_entries, doc_get. cbn [members]. rewrite Hnone. cbn [parse_entries].
-      unfold add_entries. cbn [map]. rewrite add_go_nil. cbn [app]. rewrite (filter_all _ _ _ Hobj).
+      rewrite (filter_all _ _ _ Hobj). rewrite (add_entries_nil l Hndl).
       destruct l as [|e l']; [contradiction|]. cbn [arr_or_null doc_set res_opt].
       rewrite (jset_absent _ _ _ Hnone). reflexivity.
-    - apply bytes_eqb_eq in E3. subst k. destruct Hwf as [us [Hv Hne]]. subst v.
+    - apply bytes_eqb_eq in E3. subst k. destruct Hwf as [us [Hv [Hne Hndu]]]. subst v.
       rewrite (dispatch_add_aka jp (JObj acc) _ (JArr (map JStr us)) (pa_aka _) (pv_aka _)).
       unfold apply_add_aka, doc_get. cbn [members]. rewrite Hnone. cbn [string_array strings_of].
-      rewrite strings_of_map_JStr. unfold add_uris. rewrite add_uris_go_nil. cbn [app].
+      rewrite strings_of_map_JStr. rewrite (add_uris_nil us Hndu).
       destruct us as [|u us']; [contradiction|]. cbn [map arr_or_null doc_set res_opt].
       rewrite (jset_absent _ _ _ Hnone). reflexivity.
   Qed.
@@ -1017,14 +1034,8 @@ Section RoundTrip.
 
   (* A well-formed document, converted to patches and applied to the empty document, gives back a document with
      exactly the same members (same names, same values; member order is not observable in Go).
-     The conclusion [Permutation m' m] (same member names with identical values, names pairwise distinct) is what
-     the property's "reproduces that document" means for a Go map.  NOT PROVEN HERE: the bridge
-       NoDup (map fst m) -> Permutation m' m -> json_equiv (JObj m') (JObj m) = true
-     (insertion sort in Json.Ast.norm is invariant under permutation when names are distinct; needs that bytes_ltb
-     is a strict total order), a fact about Json/Ast.v; with it the statement
-       json_equiv (result) (JObj m) = true
-     follows immediately.  Corr.Composer.wf_example_roundtrip checks the json_equiv form on an example, and the
-     generated RCases files check it on 6000 documents against the real code. *)
+     The conclusion [Permutation m' m] says: same member names with identical values.  The [json_equiv] form is
+     [from_document_roundtrip_equiv] at the end of this file (via [perm_members_equiv]). *)
   Theorem from_document_roundtrip : forall m,
     wf_document m ->
     exists ps m', patches_from_document (JObj m) = Some ps
@@ -1074,3 +1085,167 @@ Section RoundTrip.
       + eapply perm_trans; [exact Hm'|]. eapply perm_trans; [exact Hpart|exact Hperm].
   Qed.
 End RoundTrip.
+
+(* ------------------------------------------------------------------------------------------------ *)
+(* 6. bridge to [json_equiv]: facts about Json/Ast.v                                                  *)
+
+Lemma byte_to_N_inj : forall x y, Byte.to_N x = Byte.to_N y -> x = y.
+Proof.
+  intros x y H. pose proof (Byte.of_to_N x) as Hx. pose proof (Byte.of_to_N y) as Hy.
+  rewrite H in Hx. rewrite Hx in Hy. inversion Hy. reflexivity.
+Qed.
+
+Lemma bytes_ltb_irrefl : forall a, bytes_ltb a a = false.
+Proof.
+  induction a as [|x a IH]; cbn [bytes_ltb]; [reflexivity|]. rewrite N.ltb_irrefl. exact IH.
+Qed.
+
+Lemma bytes_ltb_trans : forall a b c, bytes_ltb a b = true -> bytes_ltb b c = true -> bytes_ltb a c = true.
+Proof.
+  induction a as [|x a IH]; intros [|y b] [|z c]; cbn [bytes_ltb]; intros H1 H2; try discriminate; try reflexivity.
+  destruct (Byte.to_N x <? Byte.to_N y)%N eqn:Exy.
+  - apply N.ltb_lt in Exy.
+    destruct (Byte.to_N y <? Byte.to_N z)%N eqn:Eyz.
+    + apply N.ltb_lt in Eyz. assert (E : (Byte.to_N x <? Byte.to_N z)%N = true) by (apply N.ltb_lt; lia).
+      rewrite E. reflexivity.
+    + destruct (Byte.to_N z <? Byte.to_N y)%N eqn:Ezy; [discriminate H2|].
+      apply N.ltb_ge in Eyz. apply N.ltb_ge in Ezy.
+      assert (E : (Byte.to_N x <? Byte.to_N z)%N = true) by (apply N.ltb_lt; lia). rewrite E. reflexivity.
+  - destruct (Byte.to_N y <? Byte.to_N x)%N eqn:Eyx; [discriminate H1|].
+    apply N.ltb_ge in Exy. apply N.ltb_ge in Eyx.
+    assert (Hxy : Byte.to_N x = Byte.to_N y) by lia. rewrite Hxy.
+    destruct (Byte.to_N y <? Byte.to_N z)%N; [reflexivity|].
+    destruct (Byte.to_N z <? Byte.to_N y)%N; [discriminate H2|].
+    exact (IH b c H1 H2).
+Qed.
+
+Lemma bytes_ltb_total : forall a b, bytes_ltb a b = false -> bytes_ltb b a = false -> a = b.
+Proof.
+  induction a as [|x a IH]; intros [|y b]; cbn [bytes_ltb]; intros H1 H2; try discriminate; try reflexivity.
+  destruct (Byte.to_N x <? Byte.to_N y)%N eqn:Exy; [discriminate H1|].
+  destruct (Byte.to_N y <? Byte.to_N x)%N eqn:Eyx; [discriminate H2|].
+  apply N.ltb_ge in Exy. apply N.ltb_ge in Eyx.
+  assert (Hxy : x = y) by (apply byte_to_N_inj; lia). subst y. f_equal. exact (IH b H1 H2).
+Qed.
+
+(* the member sort inside [norm], as a named function *)
+Fixpoint nsort (m : list (bytes * json)) : list (bytes * json) :=
+  match m with
+  | [] => []
+  | (k, v) :: r => insert_member k (norm v) (nsort r)
+  end.
+
+Lemma norm_obj : forall m, norm (JObj m) = JObj (nsort m).
+Proof.
+  induction m as [|[k v] r IH]; [reflexivity|].
+  change (norm (JObj ((k, v) :: r)))
+    with (JObj (insert_member k (norm v) (match norm (JObj r) with JObj x => x | _ => [] end))).
+  rewrite IH. reflexivity.
+Qed.
+
+Definition nmember (kv : bytes * json) : bytes * json := (fst kv, norm (snd kv)).
+
+Lemma nsort_perm : forall m, Permutation (nsort m) (map nmember m).
+Proof.
+  induction m as [|[k v] r IH]; cbn [nsort map]; [apply perm_nil|].
+  eapply perm_trans; [apply insert_member_perm|]. apply perm_skip. exact IH.
+Qed.
+
+(* strictly increasing member names *)
+Inductive ssorted : list (bytes * json) -> Prop :=
+| ss_nil : ssorted []
+| ss_cons : forall k v l, ssorted l -> (forall kv, In kv l -> bytes_ltb k (fst kv) = true) -> ssorted ((k, v) :: l).
+
+Lemma insert_member_in : forall k v l x, In x (insert_member k v l) <-> x = (k, v) \/ In x l.
+Proof.
+  intros k v l x. split; intro H.
+  - apply (Permutation_in _ (insert_member_perm k v l)) in H. destruct H as [H|H]; [left; symmetry; exact H|right; exact H].
+  - apply (Permutation_in _ (Permutation_sym (insert_member_perm k v l))). destruct H as [H|H]; [left; symmetry; exact H|right; exact H].
+Qed.
+
+Lemma insert_member_sorted : forall k v l,
+  ssorted l -> ~ In k (map fst l) -> ssorted (insert_member k v l).
+Proof.
+  intros k v l Hs. induction Hs as [|k' v' l Hl IH Hk']; intro Hnin; cbn [insert_member].
+  - constructor; [constructor|intros kv []].
+  - cbn [map fst In] in Hnin.
+    destruct (bytes_ltb k' k) eqn:E.
+    + constructor.
+      * apply IH. tauto.
+      * intros kv Hkv. apply insert_member_in in Hkv. destruct Hkv as [Hkv|Hkv]; [subst kv; exact E|apply Hk'; exact Hkv].
+    + assert (Hlt : bytes_ltb k k' = true).
+      { destruct (bytes_ltb k k') eqn:E2; [reflexivity|]. exfalso. apply Hnin. left.
+        symmetry. apply bytes_ltb_total; assumption. }
+      constructor; [constructor; assumption|].
+      intros kv [Hkv|Hkv]; [subst kv; exact Hlt|]. apply (bytes_ltb_trans k k' (fst kv) Hlt). apply Hk'. exact Hkv.
+Qed.
+
+Lemma map_fst_nmember : forall m, map fst (map nmember m) = map fst m.
+Proof. intro m. rewrite map_map. reflexivity. Qed.
+
+Lemma nsort_sorted : forall m, NoDup (map fst m) -> ssorted (nsort m).
+Proof.
+  induction m as [|[k v] r IH]; intro H; cbn [nsort]; [constructor|].
+  cbn [map fst] in H. inversion H as [|? ? Hk Hr]; subst.
+  apply insert_member_sorted; [apply IH; exact Hr|].
+  intro Hin. apply Hk. rewrite <- (map_fst_nmember r).
+  apply (Permutation_in _ (Permutation_map fst (nsort_perm r))). exact Hin.
+Qed.
+
+Lemma ssorted_perm_eq : forall l1, ssorted l1 -> forall l2, ssorted l2 -> Permutation l1 l2 -> l1 = l2.
+Proof.
+  intros l1 H1. induction H1 as [|k1 v1 r1 Hr1 IH Hk1]; intros l2 H2 Hp.
+  - apply Permutation_nil in Hp. symmetry. exact Hp.
+  - destruct H2 as [|k2 v2 r2 Hr2 Hk2].
+    + apply Permutation_sym in Hp. apply Permutation_nil in Hp. discriminate Hp.
+    + assert (Hhead : (k1, v1) = (k2, v2)).
+      { assert (Hin1 : In (k1, v1) ((k2, v2) :: r2)) by (apply (Permutation_in _ Hp); left; reflexivity).
+        assert (Hin2 : In (k2, v2) ((k1, v1) :: r1))
+          by (apply (Permutation_in _ (Permutation_sym Hp)); left; reflexivity).
+        destruct Hin1 as [E|Hin1]; [symmetry; exact E|]. destruct Hin2 as [E|Hin2]; [exact E|].
+        exfalso. pose proof (Hk2 _ Hin1) as A. pose proof (Hk1 _ Hin2) as B. cbn [fst] in A, B.
+        pose proof (bytes_ltb_trans _ _ _ A B) as C. rewrite bytes_ltb_irrefl in C. discriminate C. }
+      inversion Hhead; subst k2 v2. f_equal. apply IH; [exact Hr2|].
+      apply (Permutation_cons_inv Hp).
+Qed.
+
+Fixpoint json_eqb_refl (j : json) : json_eqb j j = true.
+Proof.
+  destruct j as [|b|n|s|l|m]; cbn [json_eqb].
+  - reflexivity.
+  - destruct b; reflexivity.
+  - apply N.eqb_refl.
+  - apply bytes_eqb_refl.
+  - induction l as [|x r IH]; [reflexivity|]. rewrite (json_eqb_refl x). exact IH.
+  - induction m as [|[k v] r IH]; [reflexivity|]. rewrite bytes_eqb_refl, (json_eqb_refl v). exact IH.
+Qed.
+
+(* member order is irrelevant for [json_equiv] when names are pairwise distinct *)
+Theorem perm_members_equiv : forall m m',
+  NoDup (map fst m) -> Permutation m' m -> json_equiv (JObj m') (JObj m) = true.
+Proof.
+  intros m m' Hnd Hp. unfold json_equiv. rewrite !norm_obj.
+  assert (Hnd' : NoDup (map fst m')).
+  { apply (Permutation_NoDup (l := map fst m)); [|exact Hnd]. apply Permutation_map. apply Permutation_sym. exact Hp. }
+  assert (E : nsort m' = nsort m).
+  { apply ssorted_perm_eq; [apply nsort_sorted; exact Hnd'|apply nsort_sorted; exact Hnd|].
+    eapply perm_trans; [apply nsort_perm|]. eapply perm_trans; [|apply Permutation_sym; apply nsort_perm].
+    apply Permutation_map. exact Hp. }
+  rewrite E. apply json_eqb_refl.
+Qed.
+
+(* 5, full statement: the patches of a well-formed document, applied to the empty document, give a document that is
+   [json_equiv] to it (under the same assumption on the JSON-patch engine) *)
+Theorem from_document_roundtrip_equiv : forall jp,
+  (forall kvs m,
+      Forall (fun kv => name_plain (fst kv) = true) kvs -> NoDup (map fst kvs) ->
+      (forall k, In k (map fst kvs) -> jget k m = None) ->
+      exists m', jp (JArr (map jp_op kvs)) (JObj m) = Some (JObj m') /\ Permutation m' (m ++ kvs)) ->
+  forall m, wf_document m ->
+  exists ps d', patches_from_document (JObj m) = Some ps
+                /\ apply_patches jp (JObj []) ps = Some d' /\ json_equiv d' (JObj m) = true.
+Proof.
+  intros jp Hjp m Hwf. destruct (from_document_roundtrip jp Hjp m Hwf) as [ps [m' [H1 [H2 H3]]]].
+  exists ps, (JObj m'). split; [exact H1|]. split; [exact H2|].
+  apply perm_members_equiv; [exact (proj1 Hwf)|exact H3].
+Qed.
